@@ -52,7 +52,11 @@ func (w *Wrs) Add(rec ResourceRecord, data []byte) error {
 		return fmt.Errorf("Unsupported type %d", rec.Qtype)
 	}
 
-	key := math.Pow(float64(localRand.Uint32())*float64(1.0/math.MaxUint32), 1.0/float64(rec.Weight))
+	// uniform variate in the open interval (0, 1): a draw of exactly 0 would give a
+	// positive-weight record the key 0 (never served), a draw of exactly 1 would give a
+	// zero-weight record the key 1 (served)
+	u := (float64(localRand.Uint32()) + 0.5) / (math.MaxUint32 + 1)
+	key := math.Pow(u, 1.0/float64(rec.Weight))
 	wrsItem := WrsItem{Key: key,
 		TTL:  rec.TTL,
 		Addr: data[rec.Offset:]}
